@@ -25,6 +25,18 @@ from . import codec_common as K
 from . import common as C
 
 REAL_SLEEP = asyncio.sleep
+REFUSED_ACTIONS = ("connect", "send-unencodable")
+
+
+class VClock:
+    """the clock the connection module sees (`time.time()`): real time + an offset that actions advance"""
+
+    def __init__(self):
+        self.offset = 0.0
+
+    def time(self):
+        return time.time() + self.offset
+
 ENDS = ["logout", "eof", "watchdog", "app"]
 ROLES = ["acceptor", "initiator"]
 
@@ -34,7 +46,7 @@ def peer_frame(mtype, seq, fields=()):
 
 
 class FakeReader:
-    def __init__(self, chunks, eof, calls=None, conn=None):
+    def __init__(self, chunks, eof, calls=None, conn=None, clock=None):
         self.chunks = list(chunks)
         self.eof = eof
         self.drained = asyncio.Event()
@@ -42,6 +54,7 @@ class FakeReader:
         self.parked = asyncio.Event()
         self.calls = {int(k): v for k, v in (calls or {}).items()}
         self.conn = conn
+        self.clock = clock
         self.nread = 0
         self.call_log = []
 
@@ -56,6 +69,19 @@ class FakeReader:
                     m = FIXMessage("D")
                     m[58] = "\u20ac"
                     await self.conn.send_msg(m)
+                elif a == "send-app":
+                    m = FIXMessage("D")
+                    m[11] = "x"
+                    m[55] = "Y"
+                    await self.conn.send_msg(m)
+                elif a == "send-test-req":
+                    await self.conn.send_test_req()
+                elif a.startswith("clock+"):
+                    # the OTHER task of the connection runs between two reads: the clock moves, the real
+                    # heartbeat_timer_task (its sleep is compressed) gets several iterations
+                    self.clock.offset += float(a[6:])
+                    for _ in range(6):
+                        await REAL_SLEEP(0.003)
                 self.call_log.append(a + ":accepted")
             except Exception as e:  # noqa: BLE001
                 self.call_log.append(a + ":" + type(e).__name__)
@@ -172,14 +198,15 @@ async def _run(role, days):
     dead = ConnectionState.DISCONNECTED_BROKEN_CONN
     conn = make_conn(role)
     out = []
+    clock = VClock()
     with patch("asyncio.sleep", _fast_sleep), patch("asyncio.open_connection", _no_network), \
-            patch("asyncio.start_server", _no_network):
+            patch("asyncio.start_server", _no_network), patch("asyncfix.connection.time", clock):
         if role == "acceptor":
             # what AsyncFIXDummyServer.connect() does once before it starts serving
             await AsyncFIXConnection.connect(conn)
         for d in days:
             chunks = K.split_at(day_stream(d), sorted(set(cuts_of(d["cuts"])) | set(d.get("forced", []))))
-            reader = FakeReader(chunks, d["end"] == "eof", calls_of(d["cuts"]), conn)
+            reader = FakeReader(chunks, d["end"] == "eof", calls_of(d["cuts"]), conn, clock)
             writer = FakeWriter(reader)
             n0, c0 = len(conn.delivered), len(conn.cb)
             jf = {"n": 0, "k": d.get("jfault")}
@@ -255,6 +282,12 @@ def gen_history(rng, role=None, ends=None, first_tail=None):
     days = []
     for k in range(ndays):
         end = ends[k] if ends else rng.choice(ENDS)
+        gap = 0
+        if k == ndays - 1 and rng.random() < 0.35:
+            # the LAST connection starts with a Logon numbered too high (messages were lost on the way): the session asks
+            # for a resend, the reader must still hand over every frame that follows in the same / later reads
+            gap = rng.choice([1, 3, 7])
+            seq += gap
         frames = [peer_frame("A", seq, ["98=0", "108=30"])]
         seq += 1
         for _ in range(rng.choice([0, 1, 1, 2, 3])):
@@ -272,7 +305,7 @@ def gen_history(rng, role=None, ends=None, first_tail=None):
             frames.append(nxt)          # a complete frame in front of EOF / disconnect is a frame of this connection
             seq += 1
             tail = b""
-        day = {"frames": frames, "tail": tail, "end": end, "tail_kind": kind}
+        day = {"frames": frames, "tail": tail, "end": end, "tail_kind": kind + ("+logon-too-high" if gap else "")}
         if end != "logout" and len(frames) >= 2 and rng.random() < 0.25:
             # E: the inbound journal write of the j-th frame fails once ('database is locked'); a fault-free frame follows in
             # its own read so that the reader gets the read it needs to drain what the fault left in its buffer
@@ -300,7 +333,8 @@ def chunkings(rng, hist, n_random):
     out.append([[c for c in canon(d)[:-2]] + ([canon(d)[-1] - rng.randint(1, 20)] if len(d["frames"]) else []) for d in days])
     for _ in range(n_random):
         cs = []
-        for d in days:
+        probed = False        # at most one probing tick per run: the virtual clock must stay below the initiator's 1.5×HeartBtInt
+        for d in days:        # reconnect timer, which would (legitimately) change what happens between two connections
             n = len(day_stream(d))
             m = rng.choice([1, 2, 3, 6])
             cuts = set(rng.randrange(1, n) for _ in range(min(m, n - 1)))
@@ -311,13 +345,18 @@ def chunkings(rng, hist, n_random):
             if rng.random() < 0.5:
                 # a refused public call while the read task is parked between two reads
                 nreads = len(cuts) + 1
-                cs.append({"cuts": cuts, "calls": {str(rng.randrange(1, nreads)) if nreads > 1 else "0":
-                                                     [rng.choice(["connect", "connect", "send-unencodable"])]}})
+                act = rng.choice(["connect", "send-unencodable", "send-app", "send-test-req", "clock+3", "clock+29.5", "clock+29.5"])
+                if act == "clock+29.5":
+                    act, probed = ("clock+3" if probed else act), True
+                cs.append({"cuts": cuts, "calls": {str(rng.randrange(1, nreads)) if nreads > 1 else "0": [act]}})
             else:
                 cs.append(cuts)
         out.append(cs)
-    # … exactly where a read ends inside the last frame
+    # … exactly where a read ends inside the last frame: a refused call / the heartbeat task probing the quiet line
     out.append([{"cuts": cuts_of(c), "calls": {str(len(cuts_of(c))): ["connect"]}} for c in out[3]])
+    probe_day = rng.randrange(len(days))
+    out.append([{"cuts": cuts_of(c), "calls": {str(len(cuts_of(c))): ["clock+29.5" if k == probe_day else rng.choice(["clock+3", "send-app"])]}}
+                for k, c in enumerate(out[3])])
     return out
 
 
@@ -361,7 +400,7 @@ def clauses(hist, res, canon_res):
     for k, (d, r) in enumerate(zip(hist["days"], res)):
         raws = [x[2] for x in r["delivered"]]
         for a in r.get("calls", []):
-            if a.endswith(":accepted"):
+            if a.endswith(":accepted") and a.split(":")[0] in REFUSED_ACTIONS:
                 yield ("C03-history-refused-call-accepted", f"connection {k + 1}: a public call that must be refused on a live connection was accepted", "refused", a)
         if r["flag"] != "-":
             yield ("C03-history-hang", f"connection {k + 1} of the same object neither consumed its reads nor ended", "-", r["flag"])
